@@ -94,16 +94,30 @@ pub fn format_comments(comments: &ChildTrivia, loc: CommentLocation, out: &mut P
 							.count();
 						&a[..offset]
 					}
+					// A line holding nothing but the `*` gutter is an empty line: it has no text
+					// to take padding from (its trailing space was trimmed above), and counting
+					// it would leave one more space in front of every other line on each pass.
+					for line in &mut lines {
+						if line.trim() == "*" {
+							line.clear();
+						}
+					}
+					// Text right after `/*` starts the comment, the spaces in between are not a part of it
+					if immediate_start {
+						lines[0] = lines[0].trim_start().to_string();
+					}
 					// First line is not empty, extract ws prefix of it
-					let mut common_ws_padding = (if immediate_start && lines.len() > 1 {
-						common_ws_prefix(&lines[1], &lines[1])
-					} else {
-						common_ws_prefix(&lines[0], &lines[0])
-					})
-					.to_string();
+					let first_padded = lines
+						.iter()
+						.skip(usize::from(immediate_start))
+						.find(|l| !l.is_empty());
+					let mut common_ws_padding = first_padded
+						.map(|l| common_ws_prefix(l, l))
+						.unwrap_or_default()
+						.to_string();
 					for line in lines
 						.iter()
-						.skip(if immediate_start { 2 } else { 1 })
+						.skip(usize::from(immediate_start))
 						.filter(|l| !l.is_empty())
 					{
 						common_ws_padding = common_ws_prefix(&common_ws_padding, line).to_string();
